@@ -228,9 +228,11 @@ fn c04_diff<'a, T: DiffableStr + ?Sized>(
     // fold / count / last / peekable / find ...)
     if all.len() <= 10 && modes_wanted(old.len() + new.len(), 5) {
         consumption_modes(&|| "iter_all_changes".to_string(), || diff.iter_all_changes(), |c| (c.tag(), c.old_index(), c.new_index(), c.value().as_bytes().as_ptr() as usize, c.value().as_bytes().len()))?;
+        crate::both_ends_modes!(|| "iter_all_changes".to_string(), || diff.iter_all_changes(), |c: similar::Change<&T>| (c.tag(), c.old_index(), c.new_index(), c.value().as_bytes().as_ptr() as usize, c.value().as_bytes().len()))?;
         for (i, op) in diff.ops().iter().enumerate() {
             if i < 2 || i + 1 == diff.ops().len() {
                 consumption_modes(&|| format!("iter_changes({:?})", op), || diff.iter_changes(op), |c| (c.tag(), c.old_index(), c.new_index(), c.value().as_bytes().as_ptr() as usize, c.value().as_bytes().len()))?;
+                crate::both_ends_modes!(|| format!("iter_changes({:?})", op), || diff.iter_changes(op), |c: similar::Change<&T>| (c.tag(), c.old_index(), c.new_index(), c.value().as_bytes().as_ptr() as usize, c.value().as_bytes().len()))?;
             }
         }
     }
@@ -346,6 +348,11 @@ fn c17_diff<'a, T: DiffableStr + ?Sized>(
                 &|| format!("{:?}: DiffOp::iter_slices", op),
                 || op.iter_slices(diff.old_slices(), diff.new_slices()),
                 |(t, s)| (t, s.as_ptr() as usize, s.len()),
+            )?;
+            crate::both_ends_modes!(
+                || format!("{:?}: TextDiffRemapper::iter_slices", op),
+                || remapper.iter_slices(op),
+                |(t, s): (ChangeTag, &T)| (t, s.as_bytes().as_ptr() as usize, s.as_bytes().len())
             )?;
         }
         for ((ptag, toks), (mtag, s)) in plain.iter().zip(mapped.iter()) {
@@ -532,6 +539,21 @@ pub fn c17_pair(old: &[u8], new: &[u8]) -> Result<(bool, u64, u64, u64), String>
         diffs += c17_helpers::<[u8]>(alg, old, new, "[u8]")?;
         if let Some((a, b)) = as_str {
             diffs += c17_helpers::<str>(alg, a, b, "str")?;
+        }
+        // a caller-side DiffableStr whose len() / slice() count characters instead of bytes
+        if as_str.is_some() && alg == Algorithm::Myers {
+            use crate::instr::Wc;
+            let (wo, wn) = (Wc::new(old), Wc::new(new));
+            for t in 0..N_TOK {
+                if !tokenizer_available(t) {
+                    continue;
+                }
+                subject(|| with_diff(t, alg, wo, wn, |d| c17_diff(d, wo, wn)))
+                    .map_err(|p| format!("character-indexed DiffableStr {} {}: panic: {}", TOKENIZERS[t], alg_name(alg), p))?
+                    .map_err(|e| format!("character-indexed DiffableStr {} {}: {}", TOKENIZERS[t], alg_name(alg), e))?;
+                diffs += 1;
+            }
+            diffs += c17_helpers::<Wc>(alg, wo, wn, "character-indexed DiffableStr")?;
         }
     }
     Ok((nontrivial, total, fp.0, diffs))
@@ -766,6 +788,7 @@ pub fn c17_run(cfg: &RunCfg) -> CheckReport {
         "same space of text pairs as C04; for every pair: TextDiffRemapper over 6 constructors x 3 algorithms x {[u8], str} compared with DiffOp::iter_slices (tags, concatenation, pointer identity with the original text, reconstruction), and the one-call helpers utils::diff_chars/words/unicode_words/graphemes/lines/slices (reconstruction, no empty slice, no panic). Non-trivial: some diff yields >= 2 remapped slices.",
     );
     rep.assume("pointer identity is checked on the byte pointers of the returned slices against the original text buffers");
+    rep.assume("valid UTF-8 pairs are also remapped (Myers) as a caller-side DiffableStr whose len() and slice() count characters, not bytes");
     rep.assume("consumption modes: DiffOp::iter_slices and TextDiffRemapper::iter_slices of the first two and the last op of every diff; quick tier on text pairs of up to 5 bytes in total, thorough tier on every pair");
     run_pairs(cfg, &mut rep, c17_pair);
     if cfg.tier == Tier::Thorough && !rep.has_violation() {
